@@ -128,9 +128,10 @@ func cli(c Case) *h.Failure {
 	f := filepath.Join(dir, "p.evy")
 	os.WriteFile(f, []byte(c.Src), 0o644) //nolint:errcheck
 	var first string
+	// one budget for the three runs; a run that does not finish gives no verdict
+	ctx, cancel := context.WithTimeout(context.Background(), 60*time.Second)
+	defer cancel()
 	for i := 0; i < 3; i++ {
-		ctx, cancel := context.WithTimeout(context.Background(), 30*time.Second)
-		defer cancel()
 		cmd := exec.CommandContext(ctx, bin, "run", "--skip-sleep", "--rand-seed", "7", "--svg-out", "-", f)
 		cmd.Stdin = strings.NewReader(strings.Join(c.Inputs, "\n") + "\n\n\n\n")
 		var so, se bytes.Buffer
@@ -292,7 +293,7 @@ func TestProp(t *testing.T) {
 			ncli++
 			ctx.Rec.Add("fresh_process_cases", 1)
 		}
-		done := h.Watch(c.Src, 60*time.Second)
+		done := h.Watch(c.Src, 15*time.Minute) // last resort only: every part of a case has its own budget
 		fl := checkCase(c)
 		done()
 		_, errs, _ := rec.SafeParse(c.Src)
